@@ -426,18 +426,18 @@ example : GoodPiece 1 ("x+1".toList, [⟨"SnakeWord", ['x'], 1, 1, 1, 2⟩, ⟨"
   refine ⟨⟨by decide, by decide, by decide, by decide +kernel⟩, ⟨by decide, by decide, by decide, by decide +kernel⟩,
     ⟨by decide, by decide, by decide, by decide +kernel⟩, by decide⟩
 
-/-- Non-vacuity (tests by evaluation): `x+1` and ` "s t" y` are tokenized independently; so are
-`0x_1` and ` ~`, the error moving to offset 5. -/
+/-- Non-vacuity (tests by evaluation): `x+1` and ` "s" y` are tokenized independently; so are
+`1` and ` ~`, the error moving from offset 1 to offset 2. -/
 example :
     tokLine tokTable.pats 1 3 "x+1".toList 0 = .ok [⟨"SnakeWord", ['x'], 1, 1, 1, 2⟩,
       ⟨"\"+\"", ['+'], 1, 2, 1, 3⟩, ⟨"Number", ['1'], 1, 3, 1, 4⟩] ∧
-    tokLine tokTable.pats 1 8 " \"s t\" y".toList 0 = .ok [⟨"String", "\"s t\"".toList, 1, 2, 1, 7⟩,
-      ⟨"SnakeWord", ['y'], 1, 8, 1, 9⟩] ∧
-    tokLine tokTable.pats 1 11 "x+1 \"s t\" y".toList 0 = .ok [⟨"SnakeWord", ['x'], 1, 1, 1, 2⟩,
+    tokLine tokTable.pats 1 6 " \"s\" y".toList 0 = .ok [⟨"String", "\"s\"".toList, 1, 2, 1, 5⟩,
+      ⟨"SnakeWord", ['y'], 1, 6, 1, 7⟩] ∧
+    tokLine tokTable.pats 1 9 "x+1 \"s\" y".toList 0 = .ok [⟨"SnakeWord", ['x'], 1, 1, 1, 2⟩,
       ⟨"\"+\"", ['+'], 1, 2, 1, 3⟩, ⟨"Number", ['1'], 1, 3, 1, 4⟩,
-      ⟨"String", "\"s t\"".toList, 1, 5, 1, 10⟩, ⟨"SnakeWord", ['y'], 1, 11, 1, 12⟩] ∧
+      ⟨"String", "\"s\"".toList, 1, 5, 1, 8⟩, ⟨"SnakeWord", ['y'], 1, 9, 1, 10⟩] ∧
     tokLine tokTable.pats 1 2 " ~".toList 0 = .err 1 ∧
-    tokLine tokTable.pats 1 6 "0x_1 ~".toList 0 = .err 5 := by
+    tokLine tokTable.pats 1 3 "1 ~".toList 0 = .err 2 := by
   refine ⟨?_, ?_, ?_, ?_, ?_⟩ <;> decide +kernel
 
 /-- The hypothesis about open-ended tokens is needed: a comment swallows what follows. -/
